@@ -32,7 +32,8 @@ fn consume<S: AnyValueCloneable + AnyValue, T: 'static>(src: &S, depth: usize, d
     } else if depth == 2 {
         let l2 = l1.lazy_clone();
         dst.push(l2.clone());
-        unsafe { l2.move_into::<Unknown>(out, esz) };
+        // with the destination type known at compile time (what `downcast::<T>()` does)
+        unsafe { l2.move_into::<T>(out, esz) };
     } else {
         let l2 = l1.lazy_clone();
         let l3 = l2.lazy_clone();
